@@ -4,6 +4,7 @@ from .. import protocol as PR
 from .. import gates as G
 from .. import mir as M
 from ..harness import Result
+import re
 
 _cache = {}
 
@@ -13,6 +14,9 @@ def analysis(config="all"):
         facts = F.load(config)
         _cache[config] = (facts,) + PR.analyse(facts)
     return _cache[config]
+
+
+TIER = {"tier": "quick"}
 
 
 def run_rules(prop, level, rules, floors, explanation, trusted, extra=None, not_decided=None):
@@ -33,6 +37,28 @@ def run_rules(prop, level, rules, floors, explanation, trusted, extra=None, not_
         extra(res, facts, entries, protos)
     for r, n in floors.items():
         res.floor(r, n)
+    if TIER["tier"] == "thorough":
+        # the same rules on each singleton configuration and on the default one (cfg-dependent code variants); rules about
+        # items that do not exist in a smaller configuration are skipped, floors apply to the all-features run only
+        extra_cfgs = ["default"] + F.PROTOCOLS
+        n_extra = 0
+        for cfg in extra_cfgs:
+            try:
+                f2, fnd2, ent2, pr2 = analysis(cfg)
+            except F.ExtractError as e:
+                res.violate(prop + ".R0", "config[%s]" % cfg, "does not type-check", "configuration %s does not type-check: %s" % (cfg, (F.rustc_errors(e.stderr) or ["?"])[0][:200]))
+                continue
+            for f in fnd2:
+                if f.rule not in rules:
+                    continue
+                if not f.ok and re.search(r"missing|expected one|expected exactly one|not found|anchor", f.msg + " " + f.construct):
+                    continue
+                n_extra += 1
+                res.oblige(f.ok)
+                if not f.ok:
+                    res.violate(f.rule, f.where, f.construct, "[configuration %s] %s" % (cfg, f.msg), file=f.file, line=f.line)
+        explanation += "; thorough tier: the same rule set re-evaluated on the default and the 8 singleton feature configurations (%d further rule evaluations)" % n_extra
+        res.extra["configurations"] = ["all"] + extra_cfgs
     res.explanation = explanation
     if not_decided:
         res.extra["not_decided"] = not_decided
